@@ -426,3 +426,72 @@ Example C17_nonvacuous_trace :
      Some ([0; 0; 0; 2], [2; 0; 1; 0], [0; -1; -1; 1]);
      Some ([0; 0; 0; 2], [2; 0; 1; 0], [0; -1; -1; 1])]%Z.
 Proof. vm_compute. reflexivity. Qed.
+
+(* ======================================================================================
+   Round 4 (model/C17_Model_Tie.v, proof/C17_Proofs_Tie.v): statements the translator tie
+   (gen_proofs/C17_GenProperties.v, compiled by the check against the functions translated
+   from the current source) rests on
+   ====================================================================================== *)
+From QV.model Require Import C17_Model_Tie.
+From QV.proof Require Import C17_Proofs_Tie.
+
+(* the explicit fuel is only a device: for EVERY fuel above the number of edges the fuelled
+   union-find run followed by _final_offsets returns the same offsets (those of uf_offsets,
+   which uses fuel_of es), and it never returns None.  The while-loops of
+   find_root_and_offset / _final_offsets have no bound in the code: this is what lets a
+   function translated with an arbitrary sufficient fuel be compared with the model *)
+Theorem C17_any_fuel :
+  forall (n : nat) (es : list edge) (fuel : nat),
+    inrange n es -> length es < fuel ->
+    match run fuel (uf_init n) es with Some st => final_offsets fuel st n | None => None end
+    = uf_offsets n es /\
+    exists offs, uf_offsets n es = Some offs /\ length offs = n.
+Proof. exact uf_offsets_any_fuel. Qed.
+Print Assumptions C17_any_fuel.
+
+(* `order = rel.argsort()` followed by `col[order]` on parallel columns of a list of records is
+   the stable sort of the records by the key, and the sort sees the keys only up to equality of
+   rationals (the model reduces its keys with Qred, the code does not) *)
+Theorem C17_argsort_gather :
+  forall (A B : Type) (f : A -> B) (key key' : A -> Q) (d : B) (L : list A),
+    gather (lget d (map f L)) (argsort (map key L)) = map f (sort_by key L) /\
+    ((forall a, (key a == key' a)%Q) -> sort_by key L = sort_by key' L).
+Proof. intros A B f key key' d L. exact (conj (gather_argsort f key d L) (sort_by_qeq key key' L)). Qed.
+Print Assumptions C17_argsort_gather.
+
+(* the index tensors of _build_edges (arange(N).reshape(H, W), rolled by -1 along each axis when
+   wrap_around, sliced [:, :-1] / [:, 1:] / [:-1, :] / [1:, :] otherwise, flattened, filtered by the
+   mask on both pixels) enumerate exactly the model's grid_pairs, in the same order, for EVERY H, W *)
+Theorem C17_index_tensors :
+  forall (H W : nat) (wrap : bool) (m : nat -> bool),
+    let idx := t_reshape H W (t_arange (H * W)) in
+    grid_pairs H W wrap m
+    = if wrap
+      then filter (pmask m) (combine (t_flatten idx) (t_flatten (t_roll (-1) 1 idx)))
+           ++ filter (pmask m) (combine (t_flatten idx) (t_flatten (t_roll (-1) 0 idx)))
+      else filter (pmask m) (combine (t_flatten (t_slice None None None (Some (-1)%Z) idx))
+                                     (t_flatten (t_slice None None (Some 1%Z) None idx)))
+           ++ filter (pmask m) (combine (t_flatten (t_slice None (Some (-1)%Z) None None idx))
+                                        (t_flatten (t_slice (Some 1%Z) None None None idx))).
+Proof. exact grid_pairs_from_tensors. Qed.
+Print Assumptions C17_index_tensors.
+
+Example C17_nonvacuous_any_fuel :
+  let es := el [(0, 1, 1); (2, 3, -1); (1, 2, 0); (3, 0, 5)]%Z in
+  inrange 4 es /\ length es < 5 /\ length es < 50 /\
+  match run 5 (uf_init 4) es with Some st => final_offsets 5 st 4 | None => None end = Some [0; -1; -1; 0]%Z /\
+  match run 50 (uf_init 4) es with Some st => final_offsets 50 st 4 | None => None end = Some [0; -1; -1; 0]%Z /\
+  match run 1 (uf_init 4) es with Some st => final_offsets 1 st 4 | None => None end = None.
+Proof.
+  cbv zeta. split; [|repeat split; vm_compute; try reflexivity; lia].
+  intros x y i Hi. vm_compute in Hi.
+  repeat (destruct Hi as [Hi|Hi]; [inversion Hi; subst; lia|]). contradiction.
+Qed.
+
+Example C17_nonvacuous_argsort :
+  argsort [3; 1; 2; 1]%Q = [1; 3; 2; 0] /\
+  gather (lget 0%Z [30; 10; 20; 11]%Z) (argsort [3; 1; 2; 1]%Q) = [10; 11; 20; 30]%Z /\
+  zpairs (combine (t_flatten (t_reshape 2 3 (t_arange 6))) (t_flatten (t_roll (-1) 1 (t_reshape 2 3 (t_arange 6)))))
+  = [(0, 1); (1, 2); (2, 0); (3, 4); (4, 5); (5, 3)]%Z /\
+  zl (t_flatten (t_slice None (Some (-1)%Z) None None (t_reshape 3 2 (t_arange 6)))) = [0; 1; 2; 3]%Z.
+Proof. repeat split; vm_compute; reflexivity. Qed.
